@@ -46,9 +46,13 @@ Theorem leader_commit_rule :
 Proof. exact CommitFacts.leader_commit_rule. Qed.
 Print Assumptions leader_commit_rule.
 
-(* a follower that answers success has flushed everything it appended for that request *)
+(* a follower that answers success has flushed everything it appended for that request.
+   REPAIRED STATEMENT: the hypothesis st_lastidx s = log_lastindex s was added (the stored last index is
+   the log's; true of every state the implementation reaches: restart recomputes it and appendEntry,
+   removeGTE, clearLog update both).  Without it the statement is false for the model
+   (CommitFacts.StaleLastIndex.counterexample): commitLog(lastLogIndex) then flushes too little. *)
 Theorem follower_flush_before_success :
-  forall sor s q s', on_append_request sor s q = Done (success, s') ->
+  forall sor s q s', st_lastidx s = log_lastindex s -> on_append_request sor s q = Done (success, s') ->
     st_log s' = st_log s \/ log_lastindex s' <= st_flushed s'.
 Proof. exact CommitFacts.follower_flush_before_success. Qed.
 Print Assumptions follower_flush_before_success.
